@@ -10,7 +10,7 @@
 using namespace SimTK;
 using vf::Plan; using vf::Op; using vf::Result; using vf::Rng;
 
-struct ThrowCtl { long calls = 0, throwAt = -1, fired = 0; };
+struct ThrowCtl { long calls = 0, throwAt = -1, fired = 0; int stage = 7; };   // stage: which realization of the harness element fails (3 Instance, 5 Position, 6 Velocity, 7 Dynamics = calcForce)
 
 // harness force element whose single parameter lives in a discrete variable with the invalidation
 // stage a careful user would choose (Position if it depends only on positions, else Dynamics)
@@ -21,11 +21,15 @@ public:
     Real getParam(const State& s) const { return Value<Real>::downcast(fs.getDiscreteVariable(s, ix)); }
     void setParam(State& s, Real v) const { Value<Real>::updDowncast(fs.updDiscreteVariable(s, ix)) = v; }
     void calcForce(const State& s, Vector_<SpatialVec>& bf, Vector_<Vec3>&, Vector& mf) const override {
-        if (tc && ++tc->calls == tc->throwAt) { tc->fired++; throw std::runtime_error("injected force-evaluation failure"); }
+        hit(7);
         Rng r(seed); const Real p = getParam(s); const Vector& q = s.getQ(); const Vector& u = s.getU();
         for (int k = 0; k < 2 && mf.size(); ++k) { int i = (int)r.below(mf.size()); Real v = p * std::sin(0.7 * q[r.below(q.size())] + k); if (!posOnly) v += 0.3 * p * u[r.below(u.size())] + 0.1 * p * s.getTime(); mf[i] += v; }
         int b = 1 + (int)r.below(nb); Real v = p * std::cos(0.5 * q[r.below(q.size())]); bf[b] += SpatialVec(Vec3(v, 0.5 * v, -v), Vec3(-v, v, 0.25 * v));
     }
+    void hit(int st) const { if (tc && tc->stage == st && ++tc->calls == tc->throwAt) { tc->fired++; throw std::runtime_error("injected realization failure"); } }
+    void realizeInstance(const State&) const override { hit(3); }
+    void realizePosition(const State&) const override { hit(5); }
+    void realizeVelocity(const State&) const override { hit(6); }
     Real calcPotentialEnergy(const State& s) const override { return posOnly ? 0.125 * getParam(s) : 0; }
     bool dependsOnlyOnPositions() const override { return posOnly; }
     const GeneralForceSubsystem& fs; bool posOnly; int nb; uint64_t seed; ThrowCtl* tc; mutable DiscreteVariableIndex ix;
@@ -71,7 +75,7 @@ struct C16 : vf::Engine {
             else if (w < 53) o = vf::mkop("cparam").set("c", (int)r.below(3)).setr("v", r.chance(0.2) ? 0.0 : r.uni(-1.5, 1.5));
             else if (w < 54) o = vf::mkop("meas").set("what", (int)r.below(3)).setr("v", r.uni(-2, 2));
             else if (w < 59) o = vf::mkop("lock").set("b", (int)r.below(nb)).set("level", (int)r.below(4));
-            else if (w < 65) o = vf::mkop("grav").set("what", (int)r.below(4)).set("b", (int)r.below(nb)).setr("v", r.chance(0.3) ? 0.0 : r.uni(0, 20));   // exactly zero gravity is a special case in Force::Gravity
+            else if (w < 65) o = vf::mkop("grav").set("what", (int)r.below(6)).set("b", (int)r.below(nb)).setr("v", r.chance(0.3) ? 0.0 : r.uni(0, 20));   // exactly zero gravity is a special case in Force::Gravity
             else if (w < 68) o = vf::mkop("euler").set("on", (int)r.below(2));
             else if (w < 82) o = vf::mkop("realize").set("stage", r.range(4, 8));
             else if (w < 90) o = vf::mkop("query").set("what", (int)r.below(5)).set("b", (int)r.below(nb)).set("e", (int)r.below(ne));
@@ -79,7 +83,7 @@ struct C16 : vf::Engine {
             else o = vf::mkop("check");
             p.ops.push_back(o);
         }
-        if (faults) { int nf = r.range(1, 2); for (int i = 0; i < nf; ++i) p.faults.push_back(vf::mkop("throw").set("at", r.range(1, 6))); }
+        if (faults) { int nf = r.range(1, 2); for (int i = 0; i < nf; ++i) p.faults.push_back(vf::mkop("throw").set("at", r.range(1, 6)).set("stage", r.pick(std::vector<int>{7, 7, 7, 3, 5, 6}))); }
         return p;
     }
 
@@ -234,8 +238,11 @@ struct C16 : vf::Engine {
             S.sys.realizeTopology();
             State s = S.sys.getDefaultState();
             S.sys.realizeModel(s);
-            std::vector<long> throwAts; for (auto& f : p.faults) if (f.kind == "throw") throwAts.push_back(std::max(1L, f.num("at", 1)));
-            size_t nextThrow = 0; if (!throwAts.empty()) { S.tc.throwAt = throwAts[0]; }
+            std::vector<long> throwAts; std::vector<int> throwStages; for (auto& f : p.faults) if (f.kind == "throw") { throwAts.push_back(std::max(1L, f.num("at", 1))); int st = (int)f.num("stage", 7); throwStages.push_back(st == 3 || st == 5 || st == 6 ? st : 7); }
+            size_t nextThrow = 0; if (!throwAts.empty()) { S.tc.throwAt = throwAts[0]; S.tc.stage = throwStages[0]; }
+            bool needTouch = false;      // a realization failed and the client has not changed anything yet
+            // realizations the harness itself needs inside an operation never fail (only 'realize' operations are fault targets)
+            auto qr = [&](Stage g) { long sv = S.tc.throwAt; S.tc.throwAt = -1; try { S.sys.realize(s, g); } catch (...) { S.tc.throwAt = sv; throw; } S.tc.throwAt = sv; };
             auto S_ = [](double v) { char b[40]; std::snprintf(b, sizeof b, "%.17g", v); return std::string(b); };
             bool gravLazyFilled = false; std::string lastMod = "(none)"; int opn = 0;
             auto check = [&](const std::string& where) {
@@ -272,7 +279,10 @@ struct C16 : vf::Engine {
                 const Stage before = s.getSystemStage();
                 key.mix(std::hash<std::string>()(op.kind) % 997); key.mix((int)before);
                 const int nq = s.getNQ(), nu = s.getNU(); const int nb = (int)S.mob.size() - 1;
-                auto modified = [&](const std::string& what) { lastMod = what; ++mods; };
+                auto modified = [&](const std::string& what) { lastMod = what; ++mods; needTouch = false; };
+                // after a failed realization the client changes some variable before it realizes or queries again; if the plan's next
+                // operation is not itself a modification, time is nudged (which invalidates every stage the failure may have left uneven)
+                if (needTouch && (op.kind == "realize" || op.kind == "query" || op.kind == "check" || op.kind == "copy" || op.kind == "euler" || op.kind == "meas" || op.kind == "param" || op.kind == "cparam")) { s.setTime(s.getTime() + 0.03125); modified("time (after a failed realization)"); }
                 if (op.kind == "sett") { s.setTime(s.getTime() + 0.37); modified("time"); }
                 else if (op.kind == "setq") { Rng r((uint64_t)op.num("seed", 1)); Vector q(nq); for (int i = 0; i < nq; ++i) q[i] = r.uni(-1.2, 1.2); s.updQ() = q; modified("q"); }
                 else if (op.kind == "setq1") { MobilizedBody& m = S.mob[1 + op.num("i", 0) % nb]; m.setOneQ(s, 0, m.getOneQ(s, 0) + 0.31); modified("q(one coordinate via MobilizedBody::setOneQ)"); }
@@ -284,10 +294,10 @@ struct C16 : vf::Engine {
                         else if (e.kind == "mld") { auto& x = Force::MobilityLinearDamper::downcast(e.f); x.setDamping(s, scaled(x.getDamping(s))); modified("parameter MobilityLinearDamper.damping"); }
                         else if (e.kind == "mcf") { auto& x = Force::MobilityConstantForce::downcast(e.f); x.setForce(s, scaled(x.getForce(s))); modified("parameter MobilityConstantForce.force"); }
                         else if (e.kind == "stop") { auto& x = Force::MobilityLinearStop::downcast(e.f); if (which == 1) x.setBounds(s, x.getLowerBound(s) - 0.1 * f - 0.03, x.getUpperBound(s) - 0.05 * f - 0.02); else if (which == 2) x.setMaterialProperties(s, x.getStiffness(s), scaled(x.getDissipation(s))); else x.setMaterialProperties(s, f == 0 ? x.getStiffness(s) * 2 : x.getStiffness(s) * f, x.getDissipation(s)); modified(which == 1 ? "parameter MobilityLinearStop.bounds" : which == 2 ? "parameter MobilityLinearStop.dissipation" : "parameter MobilityLinearStop.stiffness"); }
-                        else if (e.kind == "df") { auto& x = Force::DiscreteForces::downcast(e.f); MobilizedBody& mb = S.mob[1 + (opn * 7 + which) % nb]; S.sys.realize(s, Stage::Instance);
-                            if (which == 0) x.setOneMobilityForce(s, mb, MobilizerUIndex(0), f == 0 ? 0.0 : 3 * f + 0.01 * opn); else if (which == 1) x.setOneBodyForce(s, mb, SpatialVec(Vec3(f, 0.5, -f), Vec3(2 * f, -1, 0.25 * opn))); else { if (f == 0) x.clearAllForces(s); else { S.sys.realize(s, Stage::Position); /* needs the body's pose */ x.addForceToBodyPoint(s, mb, Vec3(0.1, 0.2, 0), Vec3(f, -f, 0.5)); } }
+                        else if (e.kind == "df") { auto& x = Force::DiscreteForces::downcast(e.f); MobilizedBody& mb = S.mob[1 + (opn * 7 + which) % nb]; qr(Stage::Instance);
+                            if (which == 0) x.setOneMobilityForce(s, mb, MobilizerUIndex(0), f == 0 ? 0.0 : 3 * f + 0.01 * opn); else if (which == 1) x.setOneBodyForce(s, mb, SpatialVec(Vec3(f, 0.5, -f), Vec3(2 * f, -1, 0.25 * opn))); else { if (f == 0) x.clearAllForces(s); else { qr(Stage::Position); /* needs the body's pose */ x.addForceToBodyPoint(s, mb, Vec3(0.1, 0.2, 0), Vec3(f, -f, 0.5)); } }
                             modified(which == 0 ? "parameter DiscreteForces.mobilityForce" : which == 1 ? "parameter DiscreteForces.bodyForce" : "parameter DiscreteForces.clear/addForceToBodyPoint"); }
-                        else if (e.kind == "thermo") { auto& x = Force::Thermostat::downcast(e.f); S.sys.realize(s, Stage::Instance); if (which % 2) x.setRelaxationTime(s, std::max(0.05, scaled(x.getRelaxationTime(s)))); else x.setBathTemperature(s, std::max(1.0, scaled(x.getBathTemperature(s)))); modified(which % 2 ? "parameter Thermostat.relaxationTime" : "parameter Thermostat.bathTemperature"); }
+                        else if (e.kind == "thermo") { auto& x = Force::Thermostat::downcast(e.f); qr(Stage::Instance); if (which % 2) x.setRelaxationTime(s, std::max(0.05, scaled(x.getRelaxationTime(s)))); else x.setBathTemperature(s, std::max(1.0, scaled(x.getBathTemperature(s)))); modified(which % 2 ? "parameter Thermostat.relaxationTime" : "parameter Thermostat.bathTemperature"); }
                         else if (e.h) { e.h->setParam(s, scaled(e.h->getParam(s))); modified(e.h->posOnly ? "parameter custom-position-only" : "parameter custom-velocity-dependent"); }
                         else did = false;
                         if (did && before >= Stage::Dynamics) ++probeParamAfterRealize; }
@@ -295,20 +305,21 @@ struct C16 : vf::Engine {
                 else if (op.kind == "enable") { if (!S.elems.empty()) { Elem& e = S.elems[op.num("e", 0) % S.elems.size()]; if (op.num("on", 1)) e.f.enable(s); else e.f.disable(s); modified("enable-flag force " + e.kind); if (before >= Stage::Dynamics) ++probeEnableAfterRealize; } }
                 else if (op.kind == "cenable") { if (!S.cons.empty()) { Constraint& c = S.cons[op.num("c", 0) % S.cons.size()]; if (op.num("on", 1)) c.enable(s); else c.disable(s); modified("enable-flag constraint"); } }
                 else if (op.kind == "menable") { if (!S.motions.empty()) { Motion& mo = S.motions[op.num("c", 0) % S.motions.size()]; if (op.num("on", 1)) mo.enable(s); else mo.disable(s); modified("enable-flag motion"); } }
-                else if (op.kind == "cparam") { if (!S.cons.empty()) { size_t ci = op.num("c", 0) % S.cons.size(); double v = op.real("v", 0.5); Constraint& c = S.cons[ci]; S.sys.realize(s, Stage::Instance);
+                else if (op.kind == "cparam") { if (!S.cons.empty()) { size_t ci = op.num("c", 0) % S.cons.size(); double v = op.real("v", 0.5); Constraint& c = S.cons[ci]; qr(Stage::Instance);
                         if (S.consKind[ci] == "cspeed") { Constraint::ConstantSpeed::downcast(c).setSpeed(s, v); modified("parameter ConstantSpeed.speed"); }
                         else if (S.consKind[ci] == "ccoord") { Constraint::ConstantCoordinate::downcast(c).setPosition(s, v); modified("parameter ConstantCoordinate.position"); }
                         else if (S.consKind[ci] == "cacc") { Constraint::ConstantAcceleration::downcast(c).setAcceleration(s, v); modified("parameter ConstantAcceleration.acceleration"); } } }
                 else if (op.kind == "meas") { int what = (int)op.num("what", 0) % 3; double v = op.real("v", 1);
                     if (what == 0) { S.mInt->setValue(s, v); modified("z (Measure::Integrate::setValue)"); }
                     else if (what == 1) { S.mVar->setValue(s, v); modified("discrete variable (Measure::Variable::setValue)"); }
-                    else { S.sys.realize(s, Stage::Time); for (auto& m : S.mAll) if (m.getDependsOnStage() <= Stage::Time) (void)m.getValue(s); } }      // an intermediate query that fills the measures' caches
+                    else { qr(Stage::Time); for (auto& m : S.mAll) if (m.getDependsOnStage() <= Stage::Time) (void)m.getValue(s); } }      // an intermediate query that fills the measures' caches
                 else if (op.kind == "lock") { MobilizedBody& m = S.mob[1 + op.num("b", 0) % nb]; int lv = (int)op.num("level", 0) % 4;
                     if (lv == 0) m.unlock(s); else if (lv == 1) m.lock(s, Motion::Position); else if (lv == 2) m.lock(s, Motion::Velocity); else m.lockAt(s, Vector(m.getNumU(s), 0.25), Motion::Acceleration);
                     modified("lock"); }
-                else if (op.kind == "grav") { int what = (int)op.num("what", 0) % 4; double v = op.real("v", 9.8);
-                    if (what == 0) S.gravity.setMagnitude(s, v); else if (what == 1) S.gravity.setDownDirection(s, UnitVec3(Vec3(std::sin(v), -std::cos(v), 0.3))); else if (what == 2) { MobilizedBodyIndex bx = S.mob[1 + op.num("b", 0) % nb].getMobilizedBodyIndex(); S.gravity.setBodyIsExcluded(s, bx, !S.gravity.getBodyIsExcluded(s, bx)); } else S.gravity.setZeroHeight(s, v - 10);
-                    modified(std::string("gravity ") + (what == 0 ? "magnitude" : what == 1 ? "direction" : what == 2 ? "exclusion" : "zeroheight")); if (gravLazyFilled) ++probeGravAfterLazy; gravLazyFilled = false; }
+                else if (op.kind == "grav") { int what = (int)op.num("what", 0) % 6; double v = op.real("v", 9.8);
+                    if (what >= 4) S.gravity.setGravityVector(s, v == 0 ? Vec3(0) : Vec3(0.3 * v, -v, what == 5 ? 0.2 * v : 0.0));
+                    else if (what == 0) S.gravity.setMagnitude(s, v); else if (what == 1) S.gravity.setDownDirection(s, UnitVec3(Vec3(std::sin(v), -std::cos(v), 0.3))); else if (what == 2) { MobilizedBodyIndex bx = S.mob[1 + op.num("b", 0) % nb].getMobilizedBodyIndex(); S.gravity.setBodyIsExcluded(s, bx, !S.gravity.getBodyIsExcluded(s, bx)); } else S.gravity.setZeroHeight(s, v - 10);
+                    modified(std::string("gravity ") + (what >= 4 ? "vector" : what == 0 ? "magnitude" : what == 1 ? "direction" : what == 2 ? "exclusion" : "zeroheight")); if (gravLazyFilled) ++probeGravAfterLazy; gravLazyFilled = false; }
                 else if (op.kind == "euler") { bool on = op.num("on", 0) != 0; if (S.matter.getUseEulerAngles(s) != on) { Vector u = s.getU(); double t = s.getTime(); S.matter.setUseEulerAngles(s, on); S.sys.realizeModel(s); s.setTime(t); s.updU() = u; Rng r(opn * 977 + 5); Vector q(s.getNQ()); for (int i = 0; i < q.size(); ++i) q[i] = r.uni(-1, 1); s.updQ() = q; modified("euler-quaternion-option"); } }
                 else if (op.kind == "realize") {
                     int st = (int)std::max(4L, std::min(8L, op.num("stage", 7)));
@@ -317,7 +328,9 @@ struct C16 : vf::Engine {
                         if (S.tc.fired == 0 || S.tc.throwAt < 0) throw;
                         // failed realization: as every client of the library does, change a state variable before going on
                         if (s.getSystemStage() >= Stage::Position) ++probeThrowAdvanced;
-                        res.count("fault_realize_throw"); S.tc.calls = 0; ++nextThrow; S.tc.throwAt = nextThrow < throwAts.size() ? throwAts[nextThrow] : -1; S.tc.fired = 0;
+                        res.count("fault_realize_throw"); res.count(std::string("fault_realize_throw_at_stage_") + std::to_string(S.tc.stage));
+                        S.tc.calls = 0; ++nextThrow; S.tc.throwAt = nextThrow < throwAts.size() ? throwAts[nextThrow] : -1; if (nextThrow < throwStages.size()) S.tc.stage = throwStages[nextThrow]; S.tc.fired = 0;
+                        if ((opn * 13 + (int)nextThrow) % 2 == 0) { needTouch = true; continue; }      // the plan's next operation is the client's change (or time is nudged, see above)
                         // ... which variable is up to the client: a speed, the time, a coordinate or a force parameter
                         switch ((opn * 31 + (int)nextThrow * 7) % 4) {
                         case 0: { s.setTime(s.getTime() + 0.0625); modified("time (after a failed realization)"); break; }
@@ -348,6 +361,7 @@ struct C16 : vf::Engine {
                 }
                 else if (op.kind == "check") check(where);
             }
+            if (needTouch) { s.setTime(s.getTime() + 0.03125); lastMod = "time (after a failed realization)"; needTouch = false; }     // same rule at the end of the history
             if (!res.violation) check("[end of history]");
         } catch (const std::exception& e) { res.fail("unexpected-exception", "exception", e.what()); }
         res.count("probe_param_change_after_dynamics_realized", probeParamAfterRealize); res.count("probe_enable_change_after_dynamics_realized", probeEnableAfterRealize);
